@@ -149,7 +149,7 @@ Lemma yield_replay st line eq st' :
   trace_inv st -> split_step st line = StYield eq st' -> split_lines s0 (rev (line :: buffer st)) = ([eq], None).
 Proof.
   intros T H. cbn [rev]. rewrite (split_lines_run_cont _ _ _ [line] T). cbn [split_lines]. rewrite H.
-  destruct (split_step_yield _ _ _ _ H) as (_ & _ & _ & Hu & _). rewrite Hu. reflexivity.
+  destruct (split_step_yield _ _ _ _ H) as (_ & _ & _ & Hu & Hc). rewrite Hu, Hc. reflexivity.
 Qed.
 
 (* the last line of a yielded chunk is not empty *)
